@@ -72,10 +72,11 @@ def make_config(rng, *, callables=True, dtypes=('float64',), factor_dtypes=(None
     cfg['kl'] = {'const': ('const', rng.choice([1e-3, 1e-2, 1e-4])), 'big': ('const', 1e9), 'callable': ('lin', 1e-3, 1.0), 'none': ('none',)}[klk]
     cfg['lr'] = ('inv', 0.1) if (callables and rng.random() < 0.3) else ('const', rng.choice([0.1, 1.0, 0.01]))
     cfg['scale'] = rng.choice([1.0, 128.0, 65536.0]) if scaler else None
+    cfg['scale_schedule'] = ([rng.choice([1.0, 2.0, 128.0, 512.0, 1024.0, 65536.0]) for _ in range(rng.randint(2, 4))] if (scaler and rng.random() < 0.5) else None)
     return cfg
 
 
-def precond_kwargs(cfg):
+def precond_kwargs(cfg, scale_holder=None):
     from kfac.enums import ComputeMethod
     kw = dict(
         factor_update_steps=mk(cfg['F']), inv_update_steps=mk(cfg['I']), damping=mk(cfg['damping']), factor_decay=mk(cfg['decay']),
@@ -87,8 +88,8 @@ def precond_kwargs(cfg):
         factor_dtype=DT[cfg['fdt']], inv_dtype=DT[cfg['idt']],
     )
     if cfg.get('scale'):
-        s = cfg['scale']
-        kw['grad_scaler'] = lambda: s
+        holder = scale_holder if scale_holder is not None else [cfg['scale']]
+        kw['grad_scaler'] = lambda: holder[0]
     if 'frac' in cfg:
         kw['grad_worker_fraction'] = cfg['frac']
     return kw
@@ -139,7 +140,9 @@ class Session:
         self.layers = gen.expected_registration(model, skip_layers or [])
         self.layers = {n: m for n, m in self.layers}
         self.capture = rm.Capture(self.layers)
-        kw = precond_kwargs(cfg)
+        self.scale_holder = [cfg.get('scale') or 1.0]
+        self.iteration = 0
+        kw = precond_kwargs(cfg, self.scale_holder)
         if skip_layers:
             kw['skip_layers'] = skip_layers
         from kfac.preconditioner import KFACPreconditioner
@@ -161,7 +164,7 @@ class Session:
         self.capture.clear()
         out = self.model(x)
         loss = gen.loss_fn(self.cfg['loss'], out, self.gen)
-        scale = self.cfg.get('scale') or 1.0
+        scale = self.scale_holder[0]
         (loss * scale).backward()
         for t in list(self.capture.inp.values()) + list(self.capture.gout.values()):
             if not torch.isfinite(t).all():
@@ -173,9 +176,14 @@ class Session:
     def train_iteration(self, vary_batch=True):
         self.model.train()
         self.model.zero_grad()
+        sched = self.cfg.get('scale_schedule')
+        if self.cfg.get('scale') and sched:
+            # dynamic loss scaling: the scale changes between optimisation steps (never inside one)
+            self.scale_holder[0] = sched[self.iteration % len(sched)]
+        self.iteration += 1
         for _ in range(self.cfg['acc']):
             self.fwd_bwd(True, batch=(self.rng.randint(1, 8) if vary_batch else None))
-        scale = self.cfg.get('scale') or 1.0
+        scale = self.scale_holder[0]
         if scale != 1.0:
             with torch.no_grad():
                 for q in self.model.parameters():
